@@ -12,7 +12,7 @@ from .. import core, world
 from ..model import der as mder
 
 ID = "C11"
-LEVEL = "fault_enumeration"
+LEVEL = "exploration"
 RULE = ("each run = 6-14 TLV items (INTEGER, length, OID, BIT STRING, OCTET "
         "STRING, SEQUENCE, context-constructed, base-128 number) encoded by "
         "the library, followed by a seeded tail, delivered intact or after "
